@@ -412,6 +412,12 @@ def check_sorts(env, nviews):
         extra = {"view": desc, "limit": k}
 
         def make():
+            if len(specs) > 1 and all(sp.kind.startswith("field:") for sp in specs) and rng.random() < 0.5:
+                # the add_field() builder API
+                mf = sorting.MultiFacet()
+                for sp in specs:
+                    mf.add_field(sp.kind.split(":")[1], reverse=sp.reverse)
+                return mf
             objs = [sp.make() for sp in specs]
             if len(objs) == 1:
                 return objs[0]
